@@ -104,6 +104,9 @@ _DUNDER = {'Div': '__truediv__', 'Add': '__add__', 'Sub': '__sub__', 'Mult': '__
 
 
 def binop(eng, op, a, b):
+    if op == 'Add' and isinstance(a, str) and isinstance(b, SV) and isinstance(b.ty, TKey) and \
+            (a, b.ty.name) in getattr(eng, 'concat_hooks', {}):
+        return eng.concat_hooks[(a, b.ty.name)](eng, b)        # "<literal>" + <abstract text>: given by the contract
     if isinstance(a, Obj) and _DUNDER.get(op) in a.attrs:
         return eng.call(a.attrs[_DUNDER[op]], [b], {})
     if isinstance(b, Obj) and not isinstance(a, Obj) and _DUNDER.get(op, '__x')[:2] + 'r' + _DUNDER.get(op, '__x')[2:] in b.attrs:
